@@ -810,7 +810,7 @@ theorem rbf_le_var [ExpLnStd M] [PowStd M] [ExpLeOne M] (k : Gp.RBF (Fl M)) (x y
     have := hg.pos
     nlinarith
   have he := ExpLeOne.exp_le_one (M := M) _ harg
-  have hpos := expR_pos (M := M) ((-(powi (x - y) 2)) / k.denom).val
+  have hpos := expR_pos_stdmodel (M := M) ((-(powi (x - y) 2)) / k.denom).val
   rw [rbf_unfold]
   show M.rnd (ExpLnStd.expR (M := M) ((-(powi (x - y) 2)) / k.denom).val * k.var.val) ≤ _
   refine le_trans (rnd_le_of_nonneg (mul_nonneg hpos.le hv)) ?_
